@@ -116,6 +116,35 @@ fn c15_figures_match_recomputation() {
             compare(suite, &format!("history {} heights {}..", salt, base), &log_text(), &recompute(&chain, &heights));
         }
     }
+    // a hand-made history: (1) the size record goes to a transaction whose CompactSize fields are all written in the 9-byte
+    // form (its serialized size is what counts, 32 bytes more than its minimal encoding) right after a canonical transaction
+    // that is bigger than the wide one's minimal encoding; (2) coinbases whose first output needs the top bit of a u64
+    {
+        cases += 1;
+        let a = TxSpec::new(vec![TxIn::new([0xA1; 32], 0, vec![0x51; 24])], vec![TxOut::new(10, vec![0x51; 4])]);
+        let mut b = TxSpec::new(vec![TxIn::new([0xB1; 32], 0, vec![0x51; 4])], vec![TxOut::new(11, vec![0x51; 4])]);
+        b.in_count_width = 9; b.out_count_width = 9; b.inputs[0].len_width = 9; b.outputs[0].len_width = 9;
+        let mut c = TxSpec::new(vec![TxIn::new([0xC1; 32], 0, vec![0x51; 4])], vec![TxOut::new(12, vec![0x51; 4])]);
+        c.in_count_width = 5; c.out_count_width = 3; c.inputs[0].len_width = 5; c.outputs[0].len_width = 9;
+        let mut chain = make_chain(5, &mut |h| match h { 1 => vec![a.clone(), b.clone()], 3 => vec![c.clone()], _ => vec![] });
+        for b in chain.iter_mut() { b.txs[0].inputs[0].script_sig = vec![0x01]; }     // small coinbases: a, b, c decide the size record
+        chain[2].txs[0].outputs[0].value = (1u64 << 63) + 5_000_000_007;
+        chain[3].txs[0].outputs[0].value = 5_000_001_234;
+        chain[4].txs[0].outputs[0].value = 4_999_999_999;
+        relink(&mut chain);
+        let heights: Vec<u64> = (0..5).collect();
+        let d = simple_dir(&chain); d.write();
+        for coin in ["bitcoin", "dogecoin"] {
+            let inp = format!("{}: canonical 114-byte tx, then a tx with four 9-byte CompactSize fields; coinbase first outputs of 2^63+5000000007, 5000001234, 4999999999 units", coin);
+            match fetch_blocks(d.path(), coin, 0, 4, false) { Err(m) => fail(suite, "C15:chain_parses", &inp, &m, "Ok"), Ok(blocks) => {
+                let mut st = SimpleStats::default();
+                log_begin();
+                st.on_start(0).unwrap();
+                let r = std::panic::catch_unwind(std::panic::AssertUnwindSafe(|| { for (i, b) in blocks.iter().enumerate() { st.on_block(b, heights[i]).unwrap(); } st.on_complete(4) }));
+                if check(matches!(r, Ok(Ok(()))), suite, "C15:report_renders", &inp, "panic/err", "Ok") { compare(suite, &inp, &log_text(), &recompute(&chain, &heights)); }
+            } }
+        }
+    }
     cases += 1;
     let big = vec![u32::MAX, u32::MAX, 7, 0, u32::MAX];
     let want = (3.0 * u32::MAX as f64 + 7.0) / 5.0;
